@@ -281,7 +281,8 @@ def check_one(c):
     return {"nontrivial": inner and nb >= 2 and (ncb >= 2 or c.get("box")),
             "labels": [f"type={c['type']}", f"ncb={ncb}"] + (["stop@" + full[inject // ncb][0]] if inject is not None else ["unstopped"]) +
                       (["empty_range"] if se > E else []) + (["timer"] if c.get("time") else []) + (["scheduler"] if c.get("sched") else []) +
-                      (["library_callbacks_in_list"] if c.get("lib_cbs") else [])}
+                      (["library_callbacks_in_list"] if c.get("lib_cbs") else []) + (["busy_callback"] if c.get("busy") else []) + (["nested_fit_of_same_state"] if c.get("nested_same") else []) +
+                      (["after_aborted_fit"] if c.get("aborted_first") else []) + (["more_than_32_epochs"] if E - se >= 32 else [])}
 
 
 @st.composite
